@@ -57,8 +57,11 @@ def run(tier, seed, replay=None):
     names = schemagen.PROP_NAMES
     for i in range(max(24, N // 3)):
         r = util.rng(seed, PROP, "hashy", i)
-        k = i % 7
-        if k == 6:      # defaults of set-, map- and vec-typed members with several elements
+        k = i % 8
+        if k == 7:      # intersections of long enumerations (allOf, and $ref with a sibling enum)
+            big = ["v%02d" % q for q in range(14)]
+            s_ = {"allOf": [{"type": "string", "enum": r.sample(big, 11)}, {"type": "string", "enum": r.sample(big, 10)}]}
+        elif k == 6:      # defaults of set-, map- and vec-typed members with several elements
             s_ = {"type": "object", "properties": {
                 "tags": {"type": "array", "uniqueItems": True, "items": {"type": "string"}, "default": r.sample(vals, r.randrange(2, 7))},
                 "nums": {"type": "array", "uniqueItems": True, "items": {"type": "integer"}, "default": r.sample(range(50), 5)},
